@@ -29,6 +29,7 @@ BOUND = ("every class of sparseSpACE/Function.py (33 classes, 1-4 parameter choi
          "d in {1,2,3} where defined, seeded random boxes in the domain (unit cube only for FunctionDiagonalDiscont/FunctionG/FunctionGShifted, whose "
          "integral is only defined there; d=1 only for LambdaFunction/Polynomial1d); quick 3 (2 for d=3), thorough 25 boxes per configuration (scipy-based 3-D integrals: 1-3 resp. 2-12; FunctionUQNormal2 d=3 only in thorough)")
 BOUND += "; fault / magnitude additions: whole-number points handed to eval_vectorized as an int64 array (30% of the vectorised operations where the domain contains integers)"
+BOUND += "; round-10 additions: one box of zero extent in a random dimension per analytic-integral configuration"
 RULE = (BOUND + "; a case is one (configuration, history, seed) or one (configuration, box); non-trivial = the history contains at least one "
         "evaluation / the box has positive volume. Tolerances: values rel 1e-11 + abs 1e-13 (scalar and numpy code round differently); "
         "analytic integrals |analytic - Q| <= 1e-8 * Q(|f|) + 10 * |Q_fine - Q_coarse|, cases whose oracle does not converge to 1e-7 are skipped and "
